@@ -64,6 +64,11 @@ class Gen:
             elif r < 0.42 and self.mode == "A":
                 v = rng.choice([6, 7, 8, 9, 10])
                 lines.append("/VERSION %d" % v); toks.append("V:%d" % v)
+                # probes on both sides of the version just declared: a field type introduced in v is accepted,
+                # one introduced in v+1 is a syntax error under this version (unless the open is permissive)
+                for mv in ([v] if v == 10 else [v, v + 1]):
+                    nm = self.name()
+                    lines.append("%s %s" % (nm, PROBE[mv])); toks.append("O:%s:%d" % (hexn(nm), mv))
             elif r < 0.42 and self.mode == "B":
                 ns = rng.choice(["", "n1", "n2", "n3.n4", ".n5", "n6."])
                 lines.append('/NAMESPACE %s' % (ns if ns else '""')); toks.append("N:" + hexn(ns))
